@@ -13,6 +13,7 @@ open GM GM.Text GM.Blocks GM.Spec
 def lines5 : Raw5 → List Bytes
   | .old b => lines4 b
   | .fence fc n info ls => (List.replicate (n + 3) fc ++ info) :: (ls ++ [List.replicate (n + 3) fc])
+  | .icode ls => icLines ls
 
 def conv5 (it : Nat × Raw5) : Nat × List Bytes := (it.1, lines5 it.2)
 
@@ -22,15 +23,54 @@ def node5 (p : Nat) : Raw5 → Bool → Blocks.Node
   | .fence _ n info ls, bk =>
     fenceN (if info.isEmpty then none else some (sg (p + n + 3) (p + n + 3 + info.length)))
       (csegs (p + n + 3 + info.length + 1) ls) bk
+  | .icode ls, bk => codeN (icsegs p ls) bk
 
 def mkNodes5 : List (Nat × List Bytes) → List Raw5 → List Bool → List Blocks.Node
   | (p, _) :: cl, blk :: blks, b :: bs => node5 p blk b :: mkNodes5 cl blks bs
   | _, _, _ => []
 
+/-- the closed node of the LAST block of a source without final line feed: an indented code block's last segment ends
+    with the source (every other kind has the same node as with the line feed) -/
+def node5E (p : Nat) : Raw5 → Bool → Blocks.Node
+  | .icode ls, bk => codeN (icsegsE p ls) bk
+  | b, bk => node5 p b bk
+
+/-- `mkNodes5` with the node of the last block given by `NL` -/
+def mkNodes5L (NL : Nat → Raw5 → Bool → Blocks.Node) :
+    List (Nat × List Bytes) → List Raw5 → List Bool → List Blocks.Node
+  | [(p, _)], [blk], [b] => [NL p blk b]
+  | (p, _) :: cl, blk :: blks, b :: bs => node5 p blk b :: mkNodes5L NL cl blks bs
+  | _, _, _ => []
+
+theorem mkNodes5L_node5 : ∀ (cl : List (Nat × List Bytes)) (blks : List Raw5) (bs : List Bool),
+    mkNodes5L node5 cl blks bs = mkNodes5 cl blks bs
+  | [], _, _ => by simp [mkNodes5L, mkNodes5]
+  | _ :: _, [], _ => by simp [mkNodes5L, mkNodes5]
+  | _ :: _, _ :: _, [] => by simp [mkNodes5L, mkNodes5]
+  | [(p, ls)], [blk], [b] => by simp [mkNodes5L, mkNodes5]
+  | (p, ls) :: x :: cl, blk :: blks, b :: bs => by
+    have ih := mkNodes5L_node5 (x :: cl) blks bs
+    cases blks with
+    | nil => simp [mkNodes5L, mkNodes5]
+    | cons b2 blks' =>
+      cases bs with
+      | nil => simp [mkNodes5L, mkNodes5]
+      | cons k2 bs' => simp only [mkNodes5L, mkNodes5] at ih ⊢; rw [ih]
+  | [(p, ls)], blk :: b2 :: blks, b :: bs => by simp [mkNodes5L, mkNodes5]
+  | [(p, ls)], [blk], b :: k2 :: bs => by simp [mkNodes5L, mkNodes5]
+
+/-- a block in front of at least one further block -/
+theorem mkNodes5L_cons (NL : Nat → Raw5 → Bool → Blocks.Node) (p : Nat) (ls : List Bytes) (x : Nat × List Bytes)
+    (cl : List (Nat × List Bytes)) (blk b2 : Raw5) (blks : List Raw5) (b k2 : Bool) (bs : List Bool) :
+    mkNodes5L NL ((p, ls) :: x :: cl) (blk :: b2 :: blks) (b :: k2 :: bs) =
+      node5 p blk b :: mkNodes5L NL (x :: cl) (b2 :: blks) (k2 :: bs) := by
+  simp [mkNodes5L]
+
 /-- what the block phase needs of a block -/
 def Good5 : Raw5 → Prop
   | .old b => Good4 b
   | .fence fc _ info ls => (fc = 96 ∨ fc = 126) ∧ (∀ c ∈ info, GM.Spec.CM.isAlnumC c = true) ∧ ∀ l ∈ ls, CodeLine fc l
+  | .icode ls => ls ≠ [] ∧ ∀ l ∈ ls, IcLine l
 
 /-- the first gap one larger: the blank line in front belongs to the gap -/
 def bump : List (Nat × Raw5) → List (Nat × Raw5)
@@ -135,7 +175,8 @@ theorem mkNodes5_bump (q : Nat) (items : List (Nat × Raw5)) (bs : List Bool) :
 /-- the outer loop of parseBlocks over a stage-5 document -/
 theorem blocksLoop_doc5 (HA : AtxOpens) : ∀ (m : Nat) (items : List (Nat × Raw5)), items.length = m →
     ∀ (trail q : Nat) (k : Int) (fuel : Nat) (bl : List LineStat) (d : Blocks.Node) (cs : List Blocks.Node) (pc : Ctx),
-    DocAt src q (items.map conv5) trail → (∀ it ∈ items, Good5 it.2) → cost (items.map conv5) + 1 ≤ fuel →
+    DocAt src q (items.map conv5) trail → (∀ it ∈ items, Good5 it.2) → (∀ it ∈ items, isIcB it.2 = false) →
+    cost (items.map conv5) + 1 ≤ fuel →
     pc.opened = [] →
     ∃ s' bs, blocksLoopT pts 0 fuel bl ⟨rdr src k q q (lineEnd src q) none (-1), d :: cs, pc⟩ = .ok ((), s') ∧
       bs.length = items.length ∧
@@ -144,7 +185,7 @@ theorem blocksLoop_doc5 (HA : AtxOpens) : ∀ (m : Nat) (items : List (Nat × Ra
   intro m
   induction m with
   | zero =>
-    intro items hm trail q k fuel bl d cs pc hd _ hf hop
+    intro items hm trail q k fuel bl d cs pc hd _ _ hf hop
     have : items = [] := List.length_eq_zero_iff.mp hm
     subst this
     obtain ⟨f, rfl⟩ : ∃ f, fuel = f + 1 := ⟨fuel - 1, by omega⟩
@@ -155,7 +196,7 @@ theorem blocksLoop_doc5 (HA : AtxOpens) : ∀ (m : Nat) (items : List (Nat × Ra
       simp [pure_apply]
     · simp [addKids_zero, mkNodes5, closedOf]
   | succ m ih =>
-    intro items hm trail q k fuel bl d cs pc hd hgood hf hop
+    intro items hm trail q k fuel bl d cs pc hd hgood hnoic hf hop
     cases items with
     | nil => simp at hm
     | cons it rest =>
@@ -172,6 +213,7 @@ theorem blocksLoop_doc5 (HA : AtxOpens) : ∀ (m : Nat) (items : List (Nat × Ra
       -- the common continuation: from a state at a block boundary `Q'` with `DocAt` for some list `items'` of length m
       have cont : ∀ (Q' : Nat) (items' : List (Nat × Raw5)) (trail' : Nat) (bl' : List LineStat) (s1 : St) (bk : Bool) (k' : Int),
           items'.length = m → DocAt src Q' (items'.map conv5) trail' → (∀ it ∈ items', Good5 it.2) →
+          (∀ it ∈ items', isIcB it.2 = false) →
           cost (items'.map conv5) + 1 ≤ f →
           mkNodes5 (closedOf Q' (items'.map conv5)) (items'.map (·.2)) =
             mkNodes5 (closedOf (q + g + (paraBytes (lines5 blk)).length + 1) (rest.map conv5)) (rest.map (·.2)) →
@@ -183,13 +225,13 @@ theorem blocksLoop_doc5 (HA : AtxOpens) : ∀ (m : Nat) (items : List (Nat × Ra
             s'.nodes = addKids d cs.length ((g, blk) :: rest).length ::
               (cs ++ mkNodes5 (closedOf q (((g, blk) :: rest).map conv5)) (((g, blk) :: rest).map (·.2)) bs) ∧
             s'.pc.refs = pc.refs := by
-        intro Q' items' trail' bl' s1 bk k' hl' hdt hg' hc' hmk h2 h3 h4 hk'
+        intro Q' items' trail' bl' s1 bk k' hl' hdt hg' hni' hc' hmk h2 h3 h4 hk'
         have es1 : s1 = ⟨rdr src k' Q' Q' (lineEnd src Q') none (-1),
             { d with children := d.children ++ [cs.length + 1] } :: (cs ++ [node5 (q + g) blk bk]), s1.pc⟩ := by
           cases s1; simp only at hk' h2 ⊢; rw [hk', h2]
         obtain ⟨s', bs, i1, i2, i3, i4⟩ :=
           ih items' hl' trail' Q' k' f bl' { d with children := d.children ++ [cs.length + 1] }
-            (cs ++ [node5 (q + g) blk bk]) s1.pc hdt hg' hc' h3
+            (cs ++ [node5 (q + g) blk bk]) s1.pc hdt hg' hni' hc' h3
         refine ⟨s', bk :: bs, by rw [es1]; exact i1, by simp [i2, hl', hrl], ?_, by rw [i4, h4]⟩
         rw [i3, hmk]
         simp [addKids, mkNodes5, closedOf, conv5, List.range'_succ, hl', hrl]
@@ -217,8 +259,10 @@ theorem blocksLoop_doc5 (HA : AtxOpens) : ∀ (m : Nat) (items : List (Nat × Ra
           rcases htail with h | h
           · exfalso; have := hln.le; simp only [lines5] at h; omega
           · rcases h.2 with ⟨hre, t, _, hdt⟩ | ⟨_, hdt⟩
-            · exact cont _ rest t bl' s1 bk k' hrl hdt (fun it hit => hgood it (by simp [hit])) hfr rfl h2 h3 h4 hk'
-            · exact cont _ rest trail bl' s1 bk k' hrl hdt (fun it hit => hgood it (by simp [hit])) hfr rfl h2 h3 h4 hk'
+            · exact cont _ rest t bl' s1 bk k' hrl hdt (fun it hit => hgood it (by simp [hit]))
+                (fun it hit => hnoic it (by simp [hit])) hfr rfl h2 h3 h4 hk'
+            · exact cont _ rest trail bl' s1 bk k' hrl hdt (fun it hit => hgood it (by simp [hit]))
+                (fun it hit => hnoic it (by simp [hit])) hfr rfl h2 h3 h4 hk'
       | fence fc n info ls =>
         obtain ⟨bl', s1, bk, e1, h2, h3, h4, k', hk'⟩ :=
           step5_fence fc n info ls g q k f bl d cs pc hbl hpa hg hfl hop
@@ -228,7 +272,7 @@ theorem blocksLoop_doc5 (HA : AtxOpens) : ∀ (m : Nat) (items : List (Nat × Ra
           obtain ⟨hre, ht, hq⟩ := h
           have hrest : rest = [] := by simpa using hre
           subst hrest; subst ht
-          exact cont _ [] 0 bl' s1 bk k' hrl ⟨trivial, by simpa using hq⟩ (by simp) hfr (by simp [closedOf]) h2 h3 h4 hk'
+          exact cont _ [] 0 bl' s1 bk k' hrl ⟨trivial, by simpa using hq⟩ (by simp) (by simp) hfr (by simp [closedOf]) h2 h3 h4 hk'
         · obtain ⟨hln, h⟩ := h
           rcases h with ⟨hre, t, ht, hdt⟩ | ⟨hre, hdt⟩
           · have hrest : rest = [] := by simpa using hre
@@ -236,7 +280,7 @@ theorem blocksLoop_doc5 (HA : AtxOpens) : ∀ (m : Nat) (items : List (Nat × Ra
             have hdt' : DocAt src (q + g + (paraBytes (lines5 (.fence fc n info ls))).length) [] (t + 1) := by
               obtain ⟨b1, b2⟩ := hdt
               exact ⟨⟨hln, b1⟩, by omega⟩
-            exact cont _ [] (t + 1) bl' s1 bk k' hrl hdt' (by simp) hfr (by simp [closedOf]) h2 h3 h4 hk'
+            exact cont _ [] (t + 1) bl' s1 bk k' hrl hdt' (by simp) (by simp) hfr (by simp [closedOf]) h2 h3 h4 hk'
           · have hrne : rest ≠ [] := by simpa using hre
             exact cont _ (bump rest) trail bl' s1 bk k' (by rw [bump_length]; exact hrl)
               (docAt_bump hln rest trail hrne hdt)
@@ -250,7 +294,18 @@ theorem blocksLoop_doc5 (HA : AtxOpens) : ∀ (m : Nat) (items : List (Nat × Ra
                   rcases hit with rfl | hit
                   · exact hgood (g0, b0) (by simp)
                   · exact hgood it (by simp [hit]))
+              (by
+                intro it hit
+                cases rest with
+                | nil => exact absurd rfl hrne
+                | cons it0 rest' =>
+                  obtain ⟨g0, b0⟩ := it0
+                  simp only [bump, List.mem_cons] at hit
+                  rcases hit with rfl | hit
+                  · exact hnoic (g0, b0) (by simp)
+                  · exact hnoic it (by simp [hit]))
               (by rw [cost_bump]; exact hfr) (by rw [closedOf_bump, bump_snd]) h2 h3 h4 hk'
+      | icode ls => exact absurd (hnoic (g, .icode ls) (by simp)) (by simp [isIcB])
 end run5
 
 end GM.Proof.CMFrag
